@@ -4,6 +4,10 @@ import P2sh.Model.Scanner
 
 Theorems about `P2sh.Model.Scanner`, the model of `src/scanner/mod.rs` in which every
 `self.input[i]` / `self.input[a..b]` is a checked access yielding `panic` and every loop takes fuel.
+The six slices (`S.slice`) and the two element reads of the literal readers (`S.at`: `the_byte` after `b'`, `the_char`
+after `'`) can return `panic`; `readCharToken_good` / `readIdentifier_good` discharge the element reads with the
+`position >= len` guard in front of them (`at_isSome`), so removing a guard from the code and the model breaks
+`nextToken_no_panic` and `scan_total`.
 All statements are for every input string (embedded NUL characters included: the scanner then
 reports `Eof` at the first NUL, exactly as the code does).
 
@@ -42,6 +46,17 @@ structure Inv (s : S) : Prop where
 
 theorem getD_nul_of_ge {a : Array Char} {i : Nat} (h : a.size ≤ i) : a.getD i nul = nul := by
   simp [Array.getD, Nat.not_lt.mpr h]
+
+/-- inside the input the checked element read `self.input[i]` succeeds — this is where the `position >= len` guards in
+front of the two element reads of the literal readers are used -/
+theorem at_isSome {s : S} {i : Nat} (h : i < s.input.size) : ∃ c, s.at i = some c :=
+  ⟨s.input[i], by simp [S.at, h]⟩
+
+/-- a lone `'` and a lone `b'` at the end of the input: behind the opening quote the cursor is at the end and the
+element read is out of range — without the `position >= len` guard both readers would return `panic` (the defects F1) -/
+example : (let s := (init "'").readChar; decide (s.position ≥ s.input.size) && (s.at s.position).isNone) = true ∧
+    (let s := (init "b'").readChar.readChar; decide (s.position ≥ s.input.size) && (s.at s.position).isNone) = true := by
+  decide
 
 theorem Inv.lt_of_ne {s : S} (h : Inv s) (hc : s.ch ≠ nul) : s.position < s.input.size := by
   apply Classical.byContradiction
@@ -239,6 +254,8 @@ theorem readCharToken_good (s : S) (h : Inv s) (hc : s.ch ≠ nul) : Good s (rea
   split
   · exact good_tok r1 _ _
   · next hlt =>
+    obtain ⟨c, hc⟩ := at_isSome (s := s1) (Nat.lt_of_not_le hlt)
+    simp only [hc]
     have r2 := r1.step (Nat.lt_of_not_le hlt)
     generalize s1.readChar = s2 at r2
     split
@@ -276,6 +293,8 @@ theorem readIdentifier_good (s : S) (h : Inv s) (hc : isIdentFirst s.ch = true) 
       rw [ht2]
       exact good_tok r2 _ _
     · next hlt =>
+      obtain ⟨c, hc⟩ := at_isSome (s := s2) (Nat.lt_of_not_le hlt)
+      simp only [hc]
       have r3 := r2.step (Nat.lt_of_not_le hlt)
       generalize s2.readChar = s3 at r3
       split
